@@ -47,6 +47,7 @@ NUMPY_FACTS = {
     "np.vdot": "same", "np.dot": "same", "np.sqrt": "same", "np.sum": "same",
     "np.max": "same", "np.min": "same", "np.transpose": "same", "np.conj": "same",
     "np.isnan": "flagarray", "np.isscalar": "flag", "bool": "flag",
+    "la.solve": "same", "np.linalg.solve": "same", "np.matmul": "same",
 }
 
 
@@ -65,6 +66,9 @@ def check(run, P):
              "(shared with C14.latch / C14.progress / C14.fixpoint)", minimum=6)
     run.rule("C09.operands", "the kind of an arithmetic node is the join of the kinds "
              "of all its operands", minimum=4)
+    run.rule("C09.const", "a constant is complex by its *type*: the test is an "
+             "isinstance() over the built-in and numpy's complex scalar types", minimum=1)
+    _const(run, P)
     _operands(run, P)
     _total(run, P)
     _arity_tables(run, P)
@@ -92,6 +96,9 @@ def check(run, P):
     for r in ("C14.progress", "C14.fixpoint"):
         del run.rule_docs[r]
         del run.minimum[r]
+    # names and statement lists handed to the kind finder are paired correctly, and
+    # provisional kinds do not abort inference (shared with C14)
+    _alias(run, "C14.pairing", "C09.fix", lambda: c14._pairing(run, P))
     # note: dead 'check' parameter
     f = P.func(f"{DATA}.SymbolKindFinder.__call__")
     mk = f.nested.get("make_kim")
@@ -393,6 +400,7 @@ def _real(run, P):
             elif declared == {"Boolean()"}:
                 want = "flag"
             if want is None:
+                _arg_dependent(run, P, c, grk, fn, rets, prets, i, n_pos, ident)
                 continue
             for r in prets:
                 v = r.value
@@ -414,9 +422,101 @@ def _real(run, P):
                            "complex (array) argument")
 
 
-def _realness_env(fn: Func):
+def _const(run, P):
+    f = P.func(f"{DATA}.KindInferenceMapper.map_constant")
+    e = f.params[1]
+    tests = [n for n in ast.walk(f.node) if isinstance(n, ast.If)]
+    ok = False
+    desc = "no test"
+    if tests:
+        t = tests[0].test
+        desc = norm(t, 80)
+        if isinstance(t, ast.Call) and dotted(t.func) == "isinstance" and len(t.args) == 2 \
+                and dotted(t.args[0]) == e:
+            types = t.args[1].elts if isinstance(t.args[1], ast.Tuple) else [t.args[1]]
+            names = {(dotted(x) or "").replace("numpy.", "np.") for x in types}
+            ok = "complex" in names and "np.complexfloating" in names \
+                and all(n_ in ("complex", "np.complexfloating", "np.complex64", "np.complex128")
+                        for n_ in names)
+            # the complex branch returns the complex kind
+            ok = ok and any(isinstance(r, ast.Return) and "is_real_valued=False" in ast.unparse(r)
+                            for s_ in tests[0].body for r in ast.walk(s_))
+    run.ob("C09.const", f, tests[0] if tests else f.node, ok,
+           construct=f"map_constant: complex iff {desc}",
+           why="a test on the value (numpy.iscomplex) calls (0.5+0j) real although "
+               "arithmetic with it stays complex; a test on the built-in type alone "
+               "misses np.complex64, which does not derive from complex")
+
+
+def _arg_dependent(run, P, c, grk, fn, rets, prets, i, n_pos, ident):
+    """Declared kind Array(<conjunction of X_kind.is_real_valued>): every argument
+    whose being complex makes the Python result complex is in the conjunction."""
+    arg_names = c.attrs.get("arg_names")
+    names = [string_value(e) for e in arg_names.elts] if isinstance(arg_names, (ast.Tuple, ast.List)) else []
+    kindvar = {}
+    for s_ in func_body_stmts(grk.node):
+        if isinstance(s_, ast.Assign) and isinstance(s_.value, ast.Call) \
+                and dotted(s_.value.func) == "self.resolve_args":
+            t = s_.targets[0]
+            elts = t.elts if isinstance(t, ast.Tuple) else [t]
+            for k, e in enumerate(elts):
+                if isinstance(e, ast.Name) and k < len(names):
+                    kindvar[e.id] = names[k]
+    if not kindvar:
+        return
+    for r in rets:
+        if len(r.value.elts) != n_pos:
+            continue
+        el = r.value.elts[i]
+        if not (isinstance(el, ast.Call) and dotted(el.func) in ("Array", "Scalar")):
+            continue
+        x = el.args[0] if el.args else next((k.value for k in el.keywords
+                                             if k.arg == "is_real_valued"), None)
+        if x is None or isinstance(x, ast.Constant):
+            continue
+        if isinstance(x, ast.Name):
+            defs = [s_.value for s_ in func_body_stmts(grk.node) if isinstance(s_, ast.Assign)
+                    and any(isinstance(t, ast.Name) and t.id == x.id for t in s_.targets)]
+            if len(defs) == 1:
+                x = defs[0]
+        conj = x.values if isinstance(x, ast.BoolOp) and isinstance(x.op, ast.And) else [x]
+        declared = set()
+        shape_ok = True
+        for cj in conj:
+            if isinstance(cj, ast.Attribute) and cj.attr == "is_real_valued" \
+                    and isinstance(cj.value, ast.Name) and cj.value.id in kindvar:
+                declared.add(kindvar[cj.value.id])
+            else:
+                shape_ok = False
+        if not shape_ok:
+            raise AnalysisError(f"{grk.fq}: realness expression {norm(x)} is not a conjunction "
+                                f"of <argument kind>.is_real_valued")
+        actual = set()
+        for pname in fn.params:
+            env = _realness_env(fn, {q: ("complex?" if q == pname else "real") for q in fn.params})
+            for pr in prets:
+                v = pr.value
+                if n_pos > 1:
+                    if not (isinstance(v, ast.Tuple) and len(v.elts) == n_pos):
+                        continue
+                    v = v.elts[i]
+                got = _realness(v, fn, env)
+                if got == "unknown":
+                    raise AnalysisError(f"{fn.fq}: realness of {norm(v)} not derivable from the "
+                                        f"numpy facts table")
+                if got == "complex?":
+                    actual.add(pname)
+        missing = sorted(actual - declared)
+        run.ob("C09.real", grk, r, not missing,
+               construct=f"{ident} result {i}: declared real iff {sorted(declared)} are real; the "
+                         f"implementation's result is complex when one of {sorted(actual)} is",
+               why=f"a complex {missing} gives a complex value in a variable whose kind "
+                   f"claims real")
+
+
+def _realness_env(fn: Func, init=None):
     """Realness of local names, in statement order."""
-    env = {}
+    env = dict(init or {})
     for s_ in func_body_stmts(fn.node):
         if isinstance(s_, ast.Assign) and len(s_.targets) == 1:
             t = s_.targets[0]
